@@ -33,6 +33,16 @@ def gen(tier, rng, harness=None, driver=None):
     for kind, exp, text, sk in localgen.cases(rng, 20 if tier == "quick" else 400):
         lines.append("mod.outcome %s %s" % (hx(sk), hx(text)))
         lines.append("!mod.%s %s %s" % ("mustfail" if exp == "error" else "accept", hx(sk), hx(text)))
+    # systematic, on real texts: every textual USE of a metadata ID, global, local / label, type or comdat in every module of the catalogue (one construct each)
+    # and of the corpus, redirected one at a time to a name nothing defines (vlib/refsites.py); oracle only, no skeleton
+    from . import refsites, catalog
+    from . import regen
+    cat = [(nm, t) for nm, t, _ in catalog.all_entries(regen.enum_table(harness))]
+    for kind, nm, ft in refsites.cases(cat, rng):
+        lines.append("!mod.mustfail - %s" % hx(ft))
+    corp = [("corpus-%d" % i, t) for i, t in enumerate(modprops.corpus_texts())]
+    for kind, nm, ft in refsites.cases(corp, rng, per_text=40 if tier == "quick" else 2000):
+        lines.append("!mod.mustfail - %s" % hx(ft))
     for m, text, sk in modprops.gen_modules(rng, n):
         lines.append("mod.outcome %s %s" % (hx(sk), hx(text)))
         for kind, exp, ft, fsk in modgen.faults(rng, text, sk):
